@@ -184,9 +184,19 @@ func ruleTable(c *Ctx) *RuleResult {
 
 // shapeCoeff: the uint64 -> int conversion of the result is dominated by the false edge of `comb > maxInt`.
 func shapeCoeff(c *Ctx, r *RuleResult) {
-	fn := c.Fn("comb.Coeff")
-	P := NewProver(c, fn)
 	mi := constOf(c, "comb", "maxInt")
+	n := 0
+	// Coeff and the unexported helpers it hands the work to
+	for _, fn := range codecScope(c.Fn("comb.Coeff")) {
+		n += shapeCoeffIn(c, r, fn, mi)
+	}
+	if n == 0 {
+		r.undecided("comb.Coeff: no uint64->int conversion found (shape changed)")
+	}
+}
+
+func shapeCoeffIn(c *Ctx, r *RuleResult, fn *ssa.Function, mi *big.Int) int {
+	P := NewProver(c, fn)
 	n := 0
 	for _, b := range fn.Blocks {
 		for _, in := range b.Instrs {
@@ -239,9 +249,7 @@ func shapeCoeff(c *Ctx, r *RuleResult) {
 			}
 		}
 	}
-	if n == 0 {
-		r.undecided("comb.Coeff: no uint64->int conversion found (shape changed)")
-	}
+	return n
 }
 
 // shapeCoeffUint64 recognises   acc=1; for i=1; i<=k; i++ { acc *= n-k+i; acc /= i }   guarded by
